@@ -7,18 +7,23 @@ HERE = os.path.dirname(os.path.abspath(__file__))
 
 E1 = 'E1'
 E2 = 'E2'
+E3 = 'E3'
 
 CHECKS = {
     'C01': dict(
         engine=E1, design='DESIGN.md section 4 / C01',
         technique='stateless exhaustive enumeration (command sequences x submit schedules x segmentations) on the real '
-                  'TorControlProtocol against a list-based reference model',
+                  'TorControlProtocol against a list-based reference model; plus TLC explicit-state checking of a TLA+ model of the '
+                  'command queue whose complete state graph is replayed path by path against the implementation',
         text='Bounded exhaustive model checking of the real protocol object: every sequence of <=3 (quick) / <=4 '
              '(thorough) commands over 3 command kinds x 7-10 reply shapes, every monotone submit schedule '
              '(up front / from a per-line callback / between chunks / from a result callback / after the reply), '
              'whole-, line- and byte-granular delivery, plus every <=2-cut segmentation of every single-command '
              'segment with a state-merging induction that extends the verdict to all segmentations. Each execution '
-             'is compared with a two-list reference (submission order, reply order).',
+             'is compared with a two-list reference (submission order, reply order). E3: tla/CtlConn.tla (submit plain / callback, '
+             'reply ok / err, event, loss, watch; 3 commands quick, 4 thorough) is checked by TLC against six invariants and all '
+             '38 604 (quick) maximal paths of its state graph are replayed on the real protocol, comparing wire ids, outcome per id '
+             'and watcher notifications after every action.',
         note='Trusted: the reference encoder refs/ctlcodec.py (control-spec 2.3), the Wire transport emulating '
              'Twisted\'s error path, the bound (sequence length, shape alphabet).'),
     'C02': dict(
@@ -36,11 +41,14 @@ CHECKS = {
     'C03': dict(
         engine=E1, design='DESIGN.md section 4 / C03',
         technique='crash-point enumeration: connectionLost injected at every byte offset of every session script on the '
-                  'real TorControlProtocol, followed by every short post-loss operation sequence',
+                  'real TorControlProtocol, followed by every short post-loss operation sequence (also re-entrant ones); plus TLC '
+                  'checking of the TLA+ queue model with full-graph conformance replay',
         text='Bounded exhaustive model checking over crash points: 66 (quick) session scripts incl. queued commands, idle '
              'and the live authentication/bootstrap exchange x every byte offset x clean/unclean reason x 0..2 prior '
              'when_disconnected() x every sequence (<=3 quick, <=4 thorough) over {plain command, callback command, '
-             'when_disconnected()} after the loss.',
+             'when_disconnected()} after the loss, and submissions made re-entrantly from the errback of an outstanding command '
+             'or from a disconnect notification. E3 as in C01: the TLA+ model includes Lose and post-loss submissions; TLC checks '
+             'NothingPendingAfterLoss / NoWriteAfterLoss / WatchersNotifiedOnce and every model path is replayed on the real code.',
         note='Trusted: Wire transport; prefix before the loss delivered reply-wise (C01 shows segmentation-independence).'),
     'C12': dict(
         engine=E1, design='DESIGN.md section 4 / C12',
@@ -275,7 +283,7 @@ def main():
         ))
     m = dict(
         version=1,
-        setup_cmd='/venv/bin/python -m compileall -q mc props refs >/dev/null',
+        setup_cmd='/venv/bin/python -m compileall -q mc props refs tla >/dev/null && /venv/bin/python -m tests.selftest',
         hooks=dict(guard='TXTORCON_VERIF',
                    enable='no source hooks are needed: checks import txtorcon from /repo (PYTHONPATH) and substitute '
                           'transports, reactor, clock and randomness from outside; TXTORCON_VERIF=1 is exported by '
@@ -290,6 +298,10 @@ def main():
             dict(name=E2, path='mc/explore.py', kind_free_text='explicit-state BFS; a state is the event history, '
                  'rebuilt on fresh real objects; canonical-state hashing for dedup',
                  serves_properties=sorted(p for p in CHECKS if CHECKS[p]['engine'] == E2)),
+            dict(name=E3, path='tla/CtlConn.tla + tla/conform.py + props/e3.py', kind_free_text='TLA+ model checked by TLC 1.8 '
+                 '(explicit state), complete labelled state graph dumped (-dump dot,actionlabels) and every path from the initial '
+                 'state replayed against the real TorControlProtocol',
+                 serves_properties=['C01', 'C03']),
         ],
         checks=checks,
         not_applicable=[dict(property_id=p, reason=r) for p, r in sorted(PENDING.items())],
